@@ -900,7 +900,7 @@ func c04UniquePart(t *testing.T, rep *mc.Report) {
 
 func TestVerifC04(t *testing.T) {
 	rep := mc.NewReport("C04")
-	rep.Rule = "value parts: every multiset of <=N contributions from the alphabet x every distinct permutation x every ordered binary merge tree (MultiValue.Merge: receiver = left subtree) x every outcome of every rng draw; and every permutation folded through AddCounterHost/AddValueCounterHost/ApplyUnique. unique part: every multiset of <=M sketches of the size family x every permutation x every tree x {Merge,MergeRead} per inner node. Non-trivial = execution in which the host choice consulted the rng at least once (two non-empty operands with different max-count hosts met), resp. a union of at least two non-nil sketches"
+	rep.Rule = "value parts: every multiset of <=N contributions from the alphabet x every distinct permutation x every ordered binary merge tree (MultiValue.Merge: receiver = left subtree) x every outcome of every rng draw; and every permutation folded through AddCounterHost/AddValueCounterHost/ApplyUnique. unique part: every multiset of <=M sketches of the size family x every permutation x every tree x {Merge,MergeRead} per inner node. unique-adversarial part: for every table size degree of the tier, sketches whose hashes collide in the last slot / slot 0 of the table (wrap-around probing chains of length 1-3, every insertion order), grown across one or two resizes (incl. MergeRead's multi-degree resize) and fed the wrapped values again, every sequence of 2-4 contributions x {Insert, Merge, MergeRead}. Non-trivial = execution in which the host choice consulted the rng at least once (two non-empty operands with different max-count hosts met), resp. a union of at least two non-nil sketches, resp. a sequence in which a value arrives a second time"
 	rep.Assume("ChUnique.uintHash32 is taken as the definition of the 32-bit hash (the reference counts distinct hashes of the union)")
 	rep.Assume("sums are compared exactly because every number in the exact contributions is dyadic; the contribution with value 0.1 is compared with relative tolerance 1e-9")
 	t0 := time.Now() // wall-clock is logged only, never part of an oracle
@@ -909,6 +909,9 @@ func TestVerifC04(t *testing.T) {
 	t0 = time.Now()
 	c04UniquePart(t, rep)
 	t.Logf("C04 unique part took %.1fs", time.Since(t0).Seconds())
+	t0 = time.Now()
+	c04AdversarialPart(t, rep)
+	t.Logf("C04 adversarial unique part took %.1fs", time.Since(t0).Seconds())
 	if err := rep.Write(); err != nil {
 		t.Fatal(err)
 	}
